@@ -275,6 +275,12 @@ func genC17(seed int64, tier string) *Scenario {
 			} else {
 				b["ignored"] = "ok.lua"
 			}
+			if r.Intn(3) == 0 {
+				// a second workspace folder holds a file whose path contains the rule's fragment; it is
+				// rewritten in the same batch. Whether the rule applies to other folders is not for the
+				// model to say: the history is compared with a fresh start only
+				b["ws2"] = []string{"/ws2", "/second"}[r.Intn(2)] // beside the root: one shares its name's prefix
+			}
 			sc.Knobs["batch"] = b
 		}
 		if r.Intn(3) == 0 {
@@ -491,8 +497,20 @@ func checkC17(t *testing.T, sc *Scenario) *Verdict {
 			if order {
 				ops = []Op{w2, w1}
 			}
+			var folders []string
+			startFiles := sc.Files
+			var ws2Final []File
+			if ws2, _ := bm["ws2"].(string); ws2 != "" {
+				folders = []string{Root, ws2}
+				twin := ws2 + "/" + ign
+				startFiles = append(append([]File{}, sc.Files...), File{Path: twin, Data: Bytes("local ws2_fine = 1\nprint(ws2_fine)\n")},
+					File{Path: ws2 + "/plain.lua", Data: Bytes("print(ws2_plain_undefined)\n")})
+				w3 := Op{Kind: "fswrite", Path: twin, Data: Bytes("local ws2_unused = 1\nprint(ws2_undefined_now)\n")}
+				ops = append(ops, w3)
+				ws2Final = []File{{Path: twin, Data: w3.Data}, {Path: ws2 + "/plain.lua", Data: Bytes("print(ws2_plain_undefined)\n")}}
+			}
 			ops = append(ops, Op{Kind: "deliver"})
-			hb := run(&Scenario{Files: sc.Files, InitOpts: c.initOpts(), Ops: ops})
+			hb := run(&Scenario{Files: startFiles, Folders: folders, InitOpts: c.initOpts(), Ops: ops})
 			if hb.Outcome != OutOK {
 				return fail(hb, "batch-events")
 			}
@@ -521,7 +539,8 @@ func checkC17(t *testing.T, sc *Scenario) *Verdict {
 			if !has(normal) {
 				final = append(final, File{Path: normal, Data: w2.Data})
 			}
-			fb := run(&Scenario{Files: final, InitOpts: c.initOpts()})
+			final = append(final, ws2Final...)
+			fb := run(&Scenario{Files: final, Folders: folders, InitOpts: c.initOpts()})
 			if fb.Outcome != OutOK {
 				return fail(fb, "batch-events fresh")
 			}
